@@ -17,13 +17,13 @@ KM_LOOP = {"secp256k1_whitelist_compute_keys_and_message": {"for (i = 0; i < n_k
     "invariants": "0 <= i && i <= n_keys && 0 <= g_illegal && g_illegal <= 2 * i + 1 && sha.bytes == 33 + 66 * (unsigned long)i && g_fin_n == 0 && g_h_fresh == 0 && g_w_started == 1 && g_w_b0 == 0 && g_w_s0 == 0x6a09e667 && g_w_s7 == 0x5be0cd19 && (g_wpos < sha.bytes ==> (g_w_hit == 1 && g_w_byte == verif_wl_expect)) && (g_wpos >= sha.bytes ==> g_w_hit == 0)",
     "decreases": "n_keys - i"}}}
 UNITS = [
-    U("C16.sig_parse", ["C16", "C07"], CODEC, "h_wl_parse", replace=["memcpy"], defs=["EL_CONTENT"],
+    U("C16.sig_parse", ["C16", "C07"], CODEC, "h_wl_parse", assumed=["memcpy"], replace=["memcpy"], defs=["EL_MEMCPY_FAST", "EL_CONTENT"],
       functions=["secp256k1_whitelist_signature_parse", "secp256k1_whitelist_signature_n_keys"], timeout=600, min_obl=169, unwind=10,
       note="all byte strings of length <= 9000; memcpy replaced by the bounds + ghost-index contract (DESIGN 2.4)"),
-    U("C16.sig_serialize", ["C16", "C07"], CODEC, "h_wl_serialize", replace=["memcpy"], defs=["EL_CONTENT"],
+    U("C16.sig_serialize", ["C16", "C07"], CODEC, "h_wl_serialize", assumed=["memcpy"], replace=["memcpy"], defs=["EL_MEMCPY_FAST", "EL_CONTENT"],
       functions=["secp256k1_whitelist_signature_serialize"], timeout=600, min_obl=168, unwind=10,
       note="every valid object (n_keys <= 255) and every capacity <= 9000"),
-    U("C16.sig_roundtrip", ["C16"], CODEC, "h_wl_roundtrip", replace=["memcpy"],
+    U("C16.sig_roundtrip", ["C16"], CODEC, "h_wl_roundtrip", defs=["EL_MEMCPY_FAST"], assumed=["memcpy"], replace=["memcpy"],
       functions=["secp256k1_whitelist_signature_parse", "secp256k1_whitelist_signature_serialize"], timeout=900, min_obl=221, unwind=10,
       note="serialize(parse(b)) == b for every accepted b (ghost byte index)"),
     U("C16.keys_msg", ["C16", "C07"], KM, "h_wl_keys_msg", replace=KM_REPL, assumed=["secp256k1_gej_add_ge_var", "secp256k1_whitelist_tweak_pubkey"],
@@ -52,10 +52,10 @@ UNITS = [
       closed_by="n_keys = 0 makes the scalar loop run 0 times on every path that reaches it (unwinding assertion)",
       note="finding F1: passes since /repo commit 07da080; native replay constructs the forged e0 = SHA256(SHA256(ser33(W))) and runs the real function"),
     U("C16.verify_gate_b8", ["C16", "C07"], VER, "h_wl_verify", replace=VER_REPL, assumed=["secp256k1_borromean_verify"], defs=["EL_BOUND=8"],
-      functions=VER_FUNCS, timeout=900, min_obl=565, unwind=34, bounded="n_keys<=8",
+      functions=VER_FUNCS, solver="cadical", timeout=900, min_obl=565, unwind=34, bounded="n_keys<=8",
       note="scalar loop unwound for signatures of at most 8 keys: gives a concrete counterexample (ring position, bytes) when a gate is broken"),
     U("C16.verify_gate", ["C16", "C07"], VER, "h_wl_verify", replace=VER_REPL, assumed=["secp256k1_borromean_verify"],
-      loop_contracts=WL_VERIFY_LOOP, functions=VER_FUNCS, timeout=1800, min_obl=602, unwind=34, tier="quick",
+      loop_contracts=WL_VERIFY_LOOP, functions=VER_FUNCS, solver="cadical", timeout=1800, min_obl=602, unwind=34, tier="quick",
       closed_by="loop contract on the scalar loop (engine-supplied, no /repo edit): invariant with ghost ring position, decreases clause; be256 spec loop unwound",
       note="all n_keys 0..255 and any caller count; includes the obligation 'C16 whitelist_verify.nonempty'"),
 ]
